@@ -30,8 +30,14 @@ fn reserve_arg(ch: &mut dyn Chooser, s: &Slot) -> (usize, &'static str) {
     let len = s.len();
     let spare = s.cap() - len;
     let alloc = alloc_size(s);
-    let n = if ch.exhaustive() { 8 } else { 11 };
+    let n = if ch.exhaustive() { 10 } else { 14 };
     match ch.choose(n) {
+        // requests that are not representable: reserve must panic, try_reclaim must say false
+        8 if ch.exhaustive() => (usize::MAX - len, "usize::MAX-len"),
+        9 if ch.exhaustive() => (isize::MAX as usize + 1, "isize::MAX+1"),
+        11 => (usize::MAX - len - ch.choose(9), "usize::MAX-len-k"),
+        12 => (isize::MAX as usize + 1 + ch.choose(9), "isize::MAX+1+k"),
+        13 => (usize::MAX - ch.choose(9), "usize::MAX-k"),
         0 => (0, "0"),
         1 => (spare.saturating_sub(1), "spare-1"),
         2 => (spare, "spare"),
@@ -149,6 +155,22 @@ pub fn mut_step(d: &mut Driver, ch: &mut dyn Chooser, i: usize, full: bool) {
             let alloc = alloc_size(&s);
             let sole = len == 0 && (cap > 0 || alloc > 0) && sole_on_block(d, &s);
             d.log(format!("reserve M{sid} {n} (len={len} cap={cap} alloc={alloc})"));
+            if n > isize::MAX as usize {
+                // not representable: must panic and leave the handle alone (C04: "panics instead of returning")
+                let before = (s.ptr(), s.len(), s.cap());
+                let m = mref(&mut s);
+                let r = crate::util::catch(|| m.reserve(n));
+                d.count("reserve_unrepresentable");
+                if r.is_ok() {
+                    d.viol("C04", "reserve-returned-unrepresentable", &format!("reserve({n}) with len {len} returned (capacity now {}) instead of panicking ({rname})", s.cap()));
+                } else if (s.ptr(), s.len(), s.cap()) != before {
+                    d.viol("C04", "reserve-panic-changed-handle", &format!("reserve({n}) panicked but changed (ptr,len,cap) from {before:?} to {:?}", (s.ptr(), s.len(), s.cap())));
+                }
+                d.dg(r.is_ok() as u64 + 2);
+                d.cell(format!("M|{rname}|reserve|{ca}|panic"));
+                d.pool.push(s);
+                return;
+            }
             let m = mref(&mut s);
             if let Some((_, ev)) = run(d, "M::reserve", || m.reserve(n)) {
                 d.count("reserve_calls");
@@ -183,7 +205,14 @@ pub fn mut_step(d: &mut Driver, ch: &mut dyn Chooser, i: usize, full: bool) {
             let sole = len == 0 && (cap > 0 || alloc > 0) && sole_on_block(d, &s);
             d.log(format!("try_reclaim M{sid} {n} (len={len} cap={cap} alloc={alloc})"));
             let m = mref(&mut s);
-            if let Some((ok, ev)) = run(d, "M::try_reclaim", || m.try_reclaim(n)) {
+            mem::reset_events();
+            let r0 = crate::util::catch(|| m.try_reclaim(n));
+            let ev = mem::events();
+            if let Err(e) = &r0 {
+                // try_reclaim accepts every n: it must answer, not panic
+                d.viol("C04", "try_reclaim-panicked", &format!("try_reclaim({n}) with len {len} cap {cap} panicked: {e} ({rname})"));
+            }
+            if let Ok(ok) = r0 {
                 d.count("try_reclaim_calls");
                 d.dg(ok as u64);
                 let m = mref(&mut s);
